@@ -1,0 +1,21 @@
+//go:build verif
+
+package variablecontext
+
+// Contracts for fvc (see /verif/DESIGN.md). Comment-only file.
+
+// The task created for a parallel index receives that index's values in its context variables (C14), and the same
+// variables for the same task every time (C18).
+//@ func defaultProvider.MakeVariablesFromTask
+//@   tags C14, C18
+//@   loop 1 invariant forall k string :: visited(k) ==> (("task.index_matrix." + k) in subs) && subs["task.index_matrix." + k] == task.ParallelIndex.MatrixValues[k]
+//@   loop 1 invariant ("task.name" in subs) && subs["task.name"] == task.Name && ("task.namespace" in subs) && subs["task.namespace"] == task.Namespace
+//@        && ("task.retry_index" in subs) && subs["task.retry_index"] == itoa(task.RetryIndex)
+//@   loop 1 invariant !("task.index_num" in subs) && !("task.index_key" in subs)
+//@   ensures [C14,C18] task-identity: ("task.name" in result) && result["task.name"] == task.Name && ("task.namespace" in result) && result["task.namespace"] == task.Namespace
+//@   ensures [C14] index-number: task.ParallelIndex.IndexNumber != nil ==> ("task.index_num" in result) && result["task.index_num"] == itoa(*task.ParallelIndex.IndexNumber) && !("task.index_key" in result)
+//@   ensures [C14] index-key: task.ParallelIndex.IndexNumber == nil && task.ParallelIndex.IndexKey != "" ==> ("task.index_key" in result) && result["task.index_key"] == task.ParallelIndex.IndexKey && !("task.index_num" in result)
+//@   ensures [C14] index-matrix: task.ParallelIndex.IndexNumber == nil && task.ParallelIndex.IndexKey == "" && len(task.ParallelIndex.MatrixValues) > 0 ==>
+//@        (forall k string :: (k in task.ParallelIndex.MatrixValues) ==> (("task.index_matrix." + k) in result) && result["task.index_matrix." + k] == task.ParallelIndex.MatrixValues[k])
+//@        && !("task.index_num" in result) && !("task.index_key" in result)
+//@   ensures [C14] retry-index: ("task.retry_index" in result) && result["task.retry_index"] == itoa(task.RetryIndex)
